@@ -199,7 +199,6 @@ def classify_guard(n, taken):
 
 def load():
     m = build.load_unit(UNIT)
-    check_tag_tests_recognised(m)
     return m
 
 
@@ -211,17 +210,17 @@ def check_tag_tests_recognised(m):
     from .. import flow
     tags = set(n for n in ("riff", "wave", "fmt", "fact", "data") if n in m.globals)
     for fn in m.defined_functions():
-        if not fn.name.startswith("rf_wavheader_") or not fn.loops_headers():
+        if not fn.name.startswith("rf_wavheader_"):
             continue
         for i in fn.insts():
-            if i.op != "load" or i.ty != "i8" or not fn.in_cycle(i):
+            if i.op != "load" or not (i.ty or "").startswith("i"):
                 continue
             try:
                 pp = flow.resolve_ptr(i.ops[0], m)
             except AnalysisError:
                 continue
-            if pp.root.k == "global" and pp.root.name in tags and pp.var:
-                raise AnalysisError("anchor vanished: %s compares a chunk id with @%s byte by byte in a loop (%s): the walks' guards "
+            if pp.root.k == "global" and pp.root.name in tags:
+                raise AnalysisError("anchor vanished: %s reads the bytes of @%s itself (%s) - a chunk id compared by hand, byte by byte or as a word: the walks' guards "
                                     "('the chunk is fact', 'the container is RIFF/WAVE') are recognised from memcmp-style comparisons only"
                                     % (fn.name, pp.root.name, i.loc))
 
